@@ -46,35 +46,36 @@ def P(v):
 
 
 class Lin:
-    """element of a free Z_r-module over formal generators"""
+    """element of a free Z_N-module over formal generators (N = r by default; subclasses pick another modulus)"""
     __slots__ = ("t",)
+    MOD = R_ORDER
 
     def __init__(self, t=None):
         self.t = {}
         for g, c in (t or {}).items():
-            c = pmod(P(c))
+            c = pmod(P(c), self.MOD)
             if not c.is_zero():
                 self.t[g] = c
 
-    @staticmethod
-    def gen(name):
-        return Lin({name: Poly.const(1)})
+    @classmethod
+    def gen(cls, name):
+        return cls({name: Poly.const(1)})
 
     def __add__(self, o):
         t = dict(self.t)
         for g, c in o.t.items():
             t[g] = t.get(g, Poly()) + c
-        return Lin(t)
+        return type(self)(t)
 
     def __neg__(self):
-        return Lin({g: -c for g, c in self.t.items()})
+        return type(self)({g: -c for g, c in self.t.items()})
 
     def __sub__(self, o):
         return self + (-o)
 
     def scale(self, k):
         k = P(k)
-        return Lin({g: c * k for g, c in self.t.items()})
+        return type(self)({g: c * k for g, c in self.t.items()})
 
     def is_zero(self):
         return not self.t
@@ -92,6 +93,12 @@ class Lin:
         if not self.t:
             return "O"
         return " + ".join("(%r)*%s" % (c, g) for g, c in sorted(self.t.items()))
+
+
+class LinE(Lin):
+    """exponent vectors in the cyclic group F_q12^* (order q^12 - 1): products of formal line values"""
+    __slots__ = ()
+    MOD = Q_MOD ** 12 - 1
 
 
 def pair(a, b):
